@@ -2046,25 +2046,28 @@ def _two_reads(fi, a, b, c, tn, gi):
     return _views(G, typ) == want
 
 
-def h_e_two_reads_mat(a: int, b: int, c: int, tn: bool, gi: int) -> bool:
+def h_e_two_reads_mat(a: int, b: int, c: int) -> bool:
     """
-    pre: 2 <= a <= 11 and 0 <= b <= 14 and 0 <= c <= 14 and 0 <= gi <= 3
+    pre: 2 <= a <= 11 and 0 <= b <= 14 and 0 <= c <= 14
     post: _
     """
-    return untraced(_two_reads, 0, pick(a, 2, 11), pick(b, 0, 14), pick(c, 0, 14), pickb(tn), pick(gi, 0, 3))
+    a, b, c = pick(a, 2, 11), pick(b, 0, 14), pick(c, 0, 14)
+    return untraced(_two_reads, 0, a, b, c, bool((a + b) % 2), (b + c) % 4)
 
 
-def h_e_two_reads_kth(a: int, b: int, c: int, tn: bool, gi: int) -> bool:
+def h_e_two_reads_kth(a: int, b: int, c: int) -> bool:
     """
-    pre: 2 <= a <= 4 and 0 <= b <= 19 and 0 <= c <= 19 and 0 <= gi <= 2
+    pre: 2 <= a <= 4 and 0 <= b <= 19 and 0 <= c <= 19
     post: _
     """
-    return untraced(_two_reads, 1, pick(a, 2, 4), pick(b, 0, 19), pick(c, 0, 19), pickb(tn), pick(gi, 0, 2))
+    a, b, c = pick(a, 2, 4), pick(b, 0, 19), pick(c, 0, 19)
+    return untraced(_two_reads, 1, a, b, c, bool((a + b) % 2), (b + c) % 3)
 
 
-def h_e_two_reads_dim(a: int, b: int, c: int, tn: bool, gi: int) -> bool:
+def h_e_two_reads_dim(a: int, b: int, c: int) -> bool:
     """
-    pre: 2 <= a <= 4 and 0 <= b <= 17 and 0 <= c <= 17 and 0 <= gi <= 2
+    pre: 2 <= a <= 4 and 0 <= b <= 17 and 0 <= c <= 17
     post: _
     """
-    return untraced(_two_reads, 2, pick(a, 2, 4), pick(b, 0, 17), pick(c, 0, 17), pickb(tn), pick(gi, 0, 2))
+    a, b, c = pick(a, 2, 4), pick(b, 0, 17), pick(c, 0, 17)
+    return untraced(_two_reads, 2, a, b, c, bool((a + b) % 2), (b + c) % 3)
